@@ -136,7 +136,10 @@ fn main() {
             }
         }
         "c12" => history::c12_cases(&mut rng, &tier, &mut out),
-        "c12-cli" => cli::c12_cli_cases(&mut rng, &tier, &mut out),
+        "c12-cli" => {
+            cli::c12_cli_cases(&mut rng, &tier, &mut out);
+            cli::c16_stale_cases(&mut rng, &tier, &mut out);
+        }
         "c13" => history::c13_cases(&mut rng, &tier, &mut out),
         "c14" => history::c14_cases(&mut rng, &tier, &mut out),
         "c06-gcmdec" => wrows::c06_gcmdec_cases(&mut rng, &tier, &mut out),
